@@ -99,42 +99,42 @@ type World struct {
 	forceMerge   map[string]bool
 
 	// shared exploration state
-	mu          sync.Mutex
-	queue       [][]Decision
-	active      int
-	cond        *sync.Cond
-	violations  map[string]*Violation
-	incompletes map[string]int
-	unsupporteds map[string]int
+	mu            sync.Mutex
+	queue         [][]Decision
+	active        int
+	cond          *sync.Cond
+	violations    map[string]*Violation
+	incompletes   map[string]int
+	unsupporteds  map[string]int
 	mergeAbortWhy map[string]int
-	blocked map[string]int
-	cuts map[string]int
-	reached     map[string]bool
-	stats       Stats
-	fnSeen      map[string]bool
-	samples     []string
-	stop        bool
-	deadline    time.Time
+	blocked       map[string]int
+	cuts          map[string]int
+	reached       map[string]bool
+	stats         Stats
+	fnSeen        map[string]bool
+	samples       []string
+	stop          bool
+	deadline      time.Time
 }
 
 type Stats struct {
-	Paths        int
-	PathsEnded   map[string]int
-	Obligations  int
-	Folded       int
-	Discharged   int
-	Violated     int
-	Undischarged int
-	Queries      int
-	SolverNs     int64
-	MaxQueryNs   int64
-	Decisions    int
-	Merged       int
-	MergeAborts  int
-	Steps        int64
-	Terms        int64
+	Paths         int
+	PathsEnded    map[string]int
+	Obligations   int
+	Folded        int
+	Discharged    int
+	Violated      int
+	Undischarged  int
+	Queries       int
+	SolverNs      int64
+	MaxQueryNs    int64
+	Decisions     int
+	Merged        int
+	MergeAborts   int
+	Steps         int64
+	Terms         int64
 	SolverUnknown int
-	SolverErrors int
+	SolverErrors  int
 }
 
 type Ctx struct {
@@ -153,30 +153,30 @@ type Ctx struct {
 	nextObj    int
 
 	// per run
-	prefix   []Decision
-	pos      int
-	trace    []Decision
-	known    map[*Term]bool
-	inputs   []Input
-	depth    int
-	steps    int
-	merging  int
-	guard    *Term
-	fnSeen   map[*ssa.Function]bool
-	pcLen    int
-	runNote  []string
-	cut      bool
-	sched    *Sched
-	absSeq   int
-	absApps  []absApp
-	oblSeen  map[string]bool
-	envTab   map[string]Value
-	held     map[*Value]int
-	onceDone map[*Value]bool
-	wg       map[*Value]int64
-	chanUndo []*Chan
+	prefix     []Decision
+	pos        int
+	trace      []Decision
+	known      map[*Term]bool
+	inputs     []Input
+	depth      int
+	steps      int
+	merging    int
+	guard      *Term
+	fnSeen     map[*ssa.Function]bool
+	pcLen      int
+	runNote    []string
+	cut        bool
+	sched      *Sched
+	absSeq     int
+	absApps    []absApp
+	oblSeen    map[string]bool
+	envTab     map[string]Value
+	held       map[*Value]int
+	onceDone   map[*Value]bool
+	wg         map[*Value]int64
+	chanUndo   []*Chan
 	allocLimit *Term
-	cur      *Frame
+	cur        *Frame
 }
 
 func (c *Ctx) hasSymbolic(args []Value) bool {
